@@ -72,7 +72,29 @@ def P_atom(atom, scalar=False):
 
 
 def _mk(d):
+    if any(x.op == "poly" and e == 1 for (s, chain) in d for x, e in s):
+        return _unwrap_polys(d)
     return frozenset((m, c) for m, c in d.items() if c != 0)
+
+
+def _unwrap_polys(d):
+    """a scalar factor that is a parenthesised sum with exponent 1 is multiplied out again
+    (arises from sqrt(...)**2)"""
+    out = {}
+    for (s, chain), c in d.items():
+        if c == 0:
+            continue
+        polys = [x for x, e in s if x.op == "poly" and e == 1]
+        if not polys or any(len(x.kids[0]) > 12 for x in polys):
+            out[(s, chain)] = out.get((s, chain), 0) + c
+            continue
+        rest = frozenset((x, e) for x, e in s if not (x.op == "poly" and e == 1))
+        acc = frozenset([((rest, chain), c)])
+        for x in polys:
+            acc = p_had(x.kids[0], acc)
+        for m, k in acc:
+            out[m] = out.get(m, 0) + k
+    return frozenset((m, c) for m, c in out.items() if c != 0)
 
 
 def p_add(a, b, sign=1):
